@@ -12,7 +12,10 @@ def run(rep, tier, seed):
     for system in ("p-entailment", "system-z"):
         cfgs += [dict(system=system, N=N, M=M, pm="", weakly=True) for N, M in pz]
     for system in ("system-w", "lex_inf"):
-        cfgs += wl_cfgs(system, tier, weakly=True)
+        cfgs += wl_cfgs(system, "quick", weakly=True)
+        if tier != "quick":
+            cfgs += [dict(system=system, N=3, M=3, pm="rc2", weakly=True), dict(system=system, N=3, M=4, pm="z3", weakly=True, layers=[0, 1, 1, 2]),
+                     dict(system=system, N=3, M=4, pm="rc2", weakly=True, level="L2", layers=[0, 0, 1, 2])]
     run_cfgs(rep, cfgs)
     need_both_answers(rep)
     exc = sum(c.get("results", {}).get("exc", 0) for c in rep.configs)
